@@ -377,6 +377,21 @@ func boundaryMutants(sd seedDoc) []Body {
 	for _, pl := range xmltree.Prologs {
 		l = append(l, Body{Data: append([]byte(pl), doc...), Doc: sd.Fam, Mut: "prolog"})
 	}
+	// ... and long runs of bytes >= 0x80 behind a declaration of a single-byte
+	// encoding, at every alignment modulo 4 (buffer boundaries of a transcoder)
+	for ei, enc := range []string{"ISO-8859-1", "latin1", "iso-8859-15", "windows-1252", "US-ASCII", "UTF-8"} {
+		for shift := 0; shift < 4; shift++ {
+			if (ei+shift)%2 == 1 && sd.Fam != "propfind" {
+				continue
+			}
+			var bb bytes.Buffer
+			bb.WriteString(`<?xml version="1.0" encoding="` + enc + `"?><!-- ` + strings.Repeat("x", shift))
+			bb.Write(bytes.Repeat([]byte{0xe9, 0xfc, 0xa4}, 3000))
+			bb.WriteString(" -->")
+			bb.Write(doc)
+			l = append(l, Body{Data: bb.Bytes(), Doc: sd.Fam, Mut: "prolog-high-bytes"})
+		}
+	}
 	switch sd.Fam {
 	case "propfind":
 		t := sd.Tree.Clone()
